@@ -52,7 +52,10 @@ type Solver struct {
 }
 
 func NewSolver(timeoutMS int) *Solver {
-	s := &Solver{bin: "z3", timeout: timeoutMS}
+	s := &Solver{bin: "z3-new", timeout: timeoutMS}
+	if b := os.Getenv("SYMGO_PIPE_SOLVER"); b != "" {
+		s.bin = b
+	}
 	s.Stats.Fallback = map[string]int{}
 	if p := os.Getenv("SYMGO_SMTLOG"); p != "" {
 		f, _ := os.Create(fmt.Sprintf("%s.%d", p, time.Now().UnixNano()))
@@ -131,6 +134,11 @@ func (s *Solver) sync(pc []*Term) {
 		s.send("(push 1)\n(assert " + s.pr.ref(t) + ")\n")
 		s.stack = append(s.stack, t)
 	}
+}
+
+// CheckSet decides the conjunction of terms (no persistent assertion stack).
+func (s *Solver) CheckSet(terms []*Term, vars []*Term) (Result, map[string]uint64) {
+	return s.Check(nil, terms, vars)
 }
 
 // Check decides pc ∧ extra (extra may be nil). When the answer is sat and
